@@ -213,11 +213,14 @@ pub fn run_actor(w: &World, seed: u64, rng: &mut Rng, n: usize, dir: &Path, trac
         for j in 0..k {
             ops.push(json!({"op":"local","d":d,"a":1 + rng.below(2),"k":key_json(keys[rng.below(keys.len())]),"h":1 + (j as i64 % 2),"now":5 + j as u64}));
         }
-        let tail: &[&str] = match i % 4 {
+        // "shutdown": the handle's shutdown request is the last flush point a process has (the actor commits before it hands
+        // the store back); the image is taken while the caller still holds the returned store
+        let tail: &[&str] = match i % 5 {
             0 => &["idle", "flush"],
             1 => &["flush"],
             2 => &["idle"],
-            _ => &["flush", "idle"],
+            3 => &["flush", "idle"],
+            _ => &["shutdown"],
         };
         // twin: live state after every call (idle / flush change nothing a reader sees)
         let mut live = vec![];
@@ -234,7 +237,7 @@ pub fn run_actor(w: &World, seed: u64, rng: &mut Rng, n: usize, dir: &Path, trac
                 }
             }
             for tl in tail {
-                kinds.push(json!(if *tl == "flush" { "Flush" } else { "Idle" }));
+                kinds.push(json!(if *tl == "idle" { "Idle" } else { "Flush" }));
                 live.push(live.last().unwrap().clone());
             }
         }
@@ -259,9 +262,12 @@ pub fn run_actor(w: &World, seed: u64, rng: &mut Rng, n: usize, dir: &Path, trac
                 let key = crate::replica::key_of(&op["k"]);
                 let _ = h.insert_local(ns, w.author(op["a"].as_i64().unwrap()).id(), key.into(), w.hash(op["h"].as_i64().unwrap()), 1).await;
             }
+            let mut handed_back = None;
             for tl in tail {
                 if *tl == "idle" {
                     tokio::time::sleep(std::time::Duration::from_millis(750)).await;
+                } else if *tl == "shutdown" {
+                    handed_back = Some(h.shutdown().await.map_err(|e| e.to_string())?);
                 } else {
                     h.flush_store().await.map_err(|e| e.to_string())?;
                 }
@@ -272,6 +278,7 @@ pub fn run_actor(w: &World, seed: u64, rng: &mut Rng, n: usize, dir: &Path, trac
                               "docs":img["docs"],"hashes":img["hashes"]}));
             sum.add("crash_images", 1);
             let _ = h.shutdown().await;
+            drop(handed_back);
             Ok(())
         });
         if let Err(e) = res {
